@@ -167,7 +167,7 @@ pub fn sweep(maxlen: usize, limit_report: usize) -> (u64, u64, u64, Vec<String>)
 }
 
 /// very long literals (totality: no stack exhaustion / quadratic blow-up): each shape repeated `n` times, parsed on a thread
-/// with a SMALL stack (512 KiB; rustc gives proc-macros 8 MiB but builds them unoptimised). A recursive implementation
+/// with rustc's default 8 MiB stack. The caller runs this mode from an UNOPTIMISED build of the oracle, as cargo builds proc-macros (opt-level 0): a recursive implementation
 /// overflows and kills the process (detected by the caller through the exit status), an iterative one does not care.
 pub fn stress(n: usize) -> Vec<String> {
     let shapes: &[&str] = &["{{", "}}", "{}", "a{}", "{0:x}", "{a}", "{:>8}", " ", "\u{e9}", "{{{}}}", "9", "{:9"];
@@ -176,7 +176,7 @@ pub fn stress(n: usize) -> Vec<String> {
         let lit: String = sh.repeat(n);
         let t0 = std::time::Instant::now();
         let l2 = lit.clone();
-        let h = std::thread::Builder::new().stack_size(512 * 1024).spawn(move || {
+        let h = std::thread::Builder::new().stack_size(8 * 1024 * 1024).spawn(move || {
             let a = real::format_string(&l2).map(|f| f.formats.len());
             let b = spec::spec_format_string(&l2).map(|f| f.formats.len());
             let c = placeholder_x::x_parse(&l2).len();
